@@ -1,6 +1,8 @@
 package simrt
 
 import (
+	"sync"
+	"sync/atomic"
 	"errors"
 	"fmt"
 	"io"
@@ -18,6 +20,8 @@ import (
 // ---------------------------------------------------------------- os.* seams
 
 func Stat(name string) (fs.FileInfo, error) {
+	enter()
+	defer leave()
 	if W == nil {
 		return os.Stat(name)
 	}
@@ -25,6 +29,8 @@ func Stat(name string) (fs.FileInfo, error) {
 }
 
 func Lstat(name string) (fs.FileInfo, error) {
+	enter()
+	defer leave()
 	if W == nil {
 		return os.Lstat(name)
 	}
@@ -38,6 +44,8 @@ func Lstat(name string) (fs.FileInfo, error) {
 }
 
 func Symlink(oldname, newname string) error {
+	enter()
+	defer leave()
 	if W == nil {
 		return os.Symlink(oldname, newname)
 	}
@@ -64,6 +72,8 @@ func Symlink(oldname, newname string) error {
 }
 
 func Readlink(name string) (string, error) {
+	enter()
+	defer leave()
 	if W == nil {
 		return os.Readlink(name)
 	}
@@ -80,6 +90,8 @@ func Readlink(name string) (string, error) {
 
 // EvalSymlinks replaces filepath.EvalSymlinks.
 func EvalSymlinks(path string) (string, error) {
+	enter()
+	defer leave()
 	if W == nil {
 		return filepath.EvalSymlinks(path)
 	}
@@ -96,6 +108,8 @@ func EvalSymlinks(path string) (string, error) {
 }
 
 func ReadFile(name string) ([]byte, error) {
+	enter()
+	defer leave()
 	if W == nil {
 		return os.ReadFile(name)
 	}
@@ -103,6 +117,8 @@ func ReadFile(name string) ([]byte, error) {
 }
 
 func WriteFile(name string, data []byte, perm fs.FileMode) error {
+	enter()
+	defer leave()
 	if W == nil {
 		return os.WriteFile(name, data, perm)
 	}
@@ -110,6 +126,8 @@ func WriteFile(name string, data []byte, perm fs.FileMode) error {
 }
 
 func Executable() (string, error) {
+	enter()
+	defer leave()
 	if W == nil {
 		return os.Executable()
 	}
@@ -126,6 +144,8 @@ func Executable() (string, error) {
 }
 
 func Getwd() (string, error) {
+	enter()
+	defer leave()
 	if W == nil {
 		return os.Getwd()
 	}
@@ -142,6 +162,8 @@ func Getwd() (string, error) {
 }
 
 func Chdir(dir string) error {
+	enter()
+	defer leave()
 	if W == nil {
 		return os.Chdir(dir)
 	}
@@ -159,6 +181,8 @@ func Chdir(dir string) error {
 
 // Abs replaces filepath.Abs (which calls os.Getwd for relative paths).
 func Abs(path string) (string, error) {
+	enter()
+	defer leave()
 	if W == nil {
 		return filepath.Abs(path)
 	}
@@ -174,6 +198,8 @@ func Abs(path string) (string, error) {
 
 // Args replaces the variable os.Args (read-only use).
 func Args() []string {
+	enter()
+	defer leave()
 	if W == nil {
 		return os.Args
 	}
@@ -181,6 +207,8 @@ func Args() []string {
 }
 
 func Exit(code int) {
+	enter()
+	defer leave()
 	if W != nil {
 		W.log(&TraceEv{Seq: W.IOSeq, Op: OpExit, Res: "os.Exit", Code: code})
 		AtExit()
@@ -206,6 +234,8 @@ func simEnv(key string) (string, bool) {
 }
 
 func Getenv(key string) string {
+	enter()
+	defer leave()
 	if W == nil {
 		return os.Getenv(key)
 	}
@@ -214,6 +244,8 @@ func Getenv(key string) string {
 }
 
 func LookupEnv(key string) (string, bool) {
+	enter()
+	defer leave()
 	if W == nil {
 		return os.LookupEnv(key)
 	}
@@ -221,6 +253,8 @@ func LookupEnv(key string) (string, bool) {
 }
 
 func Environ() []string {
+	enter()
+	defer leave()
 	if W == nil {
 		return os.Environ()
 	}
@@ -233,6 +267,8 @@ func Environ() []string {
 }
 
 func Getpid() int {
+	enter()
+	defer leave()
 	if W == nil {
 		return os.Getpid()
 	}
@@ -240,6 +276,8 @@ func Getpid() int {
 }
 
 func Hostname() (string, error) {
+	enter()
+	defer leave()
 	if W == nil {
 		return os.Hostname()
 	}
@@ -250,6 +288,8 @@ func Hostname() (string, error) {
 // epoch to epoch (per-user temporary directories, CI runners) and always lies
 // on the /tmp device. NewWorld creates it.
 func TempDir() string {
+	enter()
+	defer leave()
 	if W == nil {
 		return os.TempDir()
 	}
@@ -264,6 +304,8 @@ func tempDirOf(epoch int64) string {
 }
 
 func UserHomeDir() (string, error) {
+	enter()
+	defer leave()
 	if W == nil {
 		return os.UserHomeDir()
 	}
@@ -272,6 +314,8 @@ func UserHomeDir() (string, error) {
 }
 
 func Rename(oldpath, newpath string) error {
+	enter()
+	defer leave()
 	if W == nil {
 		return os.Rename(oldpath, newpath)
 	}
@@ -279,6 +323,8 @@ func Rename(oldpath, newpath string) error {
 }
 
 func Remove(name string) error {
+	enter()
+	defer leave()
 	if W == nil {
 		return os.Remove(name)
 	}
@@ -286,6 +332,8 @@ func Remove(name string) error {
 }
 
 func RemoveAll(name string) error {
+	enter()
+	defer leave()
 	if W == nil {
 		return os.RemoveAll(name)
 	}
@@ -293,6 +341,8 @@ func RemoveAll(name string) error {
 }
 
 func Mkdir(name string, perm fs.FileMode) error {
+	enter()
+	defer leave()
 	if W == nil {
 		return os.Mkdir(name, perm)
 	}
@@ -300,6 +350,8 @@ func Mkdir(name string, perm fs.FileMode) error {
 }
 
 func MkdirAll(name string, perm fs.FileMode) error {
+	enter()
+	defer leave()
 	if W == nil {
 		return os.MkdirAll(name, perm)
 	}
@@ -307,6 +359,8 @@ func MkdirAll(name string, perm fs.FileMode) error {
 }
 
 func ReadDir(name string) ([]fs.DirEntry, error) {
+	enter()
+	defer leave()
 	if W == nil {
 		return os.ReadDir(name)
 	}
@@ -314,6 +368,8 @@ func ReadDir(name string) ([]fs.DirEntry, error) {
 }
 
 func Chmod(name string, mode fs.FileMode) error {
+	enter()
+	defer leave()
 	if W == nil {
 		return os.Chmod(name, mode)
 	}
@@ -332,6 +388,8 @@ func Chmod(name string, mode fs.FileMode) error {
 }
 
 func Truncate(name string, size int64) error {
+	enter()
+	defer leave()
 	if W == nil {
 		return os.Truncate(name, size)
 	}
@@ -363,10 +421,14 @@ type File struct {
 func Open(name string) (*File, error) { return OpenFile(name, os.O_RDONLY, 0) }
 
 func Create(name string) (*File, error) {
+	enter()
+	defer leave()
 	return OpenFile(name, os.O_RDWR|os.O_CREATE|os.O_TRUNC, 0o666)
 }
 
 func OpenFile(name string, flag int, perm fs.FileMode) (*File, error) {
+	enter()
+	defer leave()
 	if W == nil {
 		f, err := os.OpenFile(name, flag, perm)
 		if err != nil {
@@ -418,6 +480,8 @@ func OpenFile(name string, flag int, perm fs.FileMode) (*File, error) {
 }
 
 func CreateTemp(dir, pattern string) (*File, error) {
+	enter()
+	defer leave()
 	if W == nil {
 		f, err := os.CreateTemp(dir, pattern)
 		if err != nil {
@@ -448,6 +512,8 @@ func CreateTemp(dir, pattern string) (*File, error) {
 }
 
 func MkdirTemp(dir, pattern string) (string, error) {
+	enter()
+	defer leave()
 	if W == nil {
 		return os.MkdirTemp(dir, pattern)
 	}
@@ -460,6 +526,8 @@ func MkdirTemp(dir, pattern string) (string, error) {
 }
 
 func (f *File) Name() string {
+	enter()
+	defer leave()
 	if f.real != nil {
 		return f.real.Name()
 	}
@@ -467,6 +535,8 @@ func (f *File) Name() string {
 }
 
 func (f *File) Read(b []byte) (int, error) {
+	enter()
+	defer leave()
 	if f.real != nil {
 		return f.real.Read(b)
 	}
@@ -501,6 +571,8 @@ func (f *File) Read(b []byte) (int, error) {
 }
 
 func (f *File) Write(b []byte) (int, error) {
+	enter()
+	defer leave()
 	if f.real != nil {
 		return f.real.Write(b)
 	}
@@ -552,6 +624,8 @@ func tail(b []byte, from int) []byte {
 func (f *File) WriteString(s string) (int, error) { return f.Write([]byte(s)) }
 
 func (f *File) Close() error {
+	enter()
+	defer leave()
 	if f.real != nil {
 		return f.real.Close()
 	}
@@ -572,6 +646,8 @@ func (f *File) Close() error {
 }
 
 func (f *File) Sync() error {
+	enter()
+	defer leave()
 	if f.real != nil {
 		return f.real.Sync()
 	}
@@ -579,6 +655,8 @@ func (f *File) Sync() error {
 }
 
 func (f *File) Stat() (fs.FileInfo, error) {
+	enter()
+	defer leave()
 	if f.real != nil {
 		return f.real.Stat()
 	}
@@ -586,6 +664,8 @@ func (f *File) Stat() (fs.FileInfo, error) {
 }
 
 func (f *File) Seek(offset int64, whence int) (int64, error) {
+	enter()
+	defer leave()
 	if f.real != nil {
 		return f.real.Seek(offset, whence)
 	}
@@ -605,6 +685,8 @@ func (f *File) Seek(offset int64, whence int) (int64, error) {
 }
 
 func (f *File) Truncate(size int64) error {
+	enter()
+	defer leave()
 	if f.real != nil {
 		return f.real.Truncate(size)
 	}
@@ -616,6 +698,8 @@ func (f *File) Truncate(size int64) error {
 }
 
 func (f *File) Chmod(mode fs.FileMode) error {
+	enter()
+	defer leave()
 	if f.real != nil {
 		return f.real.Chmod(mode)
 	}
@@ -624,6 +708,8 @@ func (f *File) Chmod(mode fs.FileMode) error {
 }
 
 func (f *File) ReadDir(n int) ([]fs.DirEntry, error) {
+	enter()
+	defer leave()
 	if f.real != nil {
 		return f.real.ReadDir(n)
 	}
@@ -631,6 +717,8 @@ func (f *File) ReadDir(n int) ([]fs.DirEntry, error) {
 }
 
 func (f *File) Readdir(n int) ([]fs.FileInfo, error) {
+	enter()
+	defer leave()
 	if f.real != nil {
 		return f.real.Readdir(n)
 	}
@@ -644,6 +732,8 @@ func (f *File) Readdir(n int) ([]fs.FileInfo, error) {
 }
 
 func (f *File) Readdirnames(n int) ([]string, error) {
+	enter()
+	defer leave()
 	if f.real != nil {
 		return f.real.Readdirnames(n)
 	}
@@ -771,20 +861,25 @@ func MapAll[M ~map[K]V, K comparable, V any](m M) iter.Seq2[K, V] {
 
 // ---------------------------------------------------------------- steps
 
-var depthBuf []uintptr
+var (
+	depthBuf []uintptr
+	depthMu  sync.Mutex
+)
 
-// Tick is inserted at the top of every function and loop body.
+// Tick is inserted at the top of every function and loop body. It is safe to call from
+// several goroutines (a change under test may start some): the counter is atomic.
 func Tick() {
 	w := W
 	if w == nil {
 		return
 	}
-	w.Ticks++
-	if w.Ticks&1023 == 0 {
-		if w.B.Ticks > 0 && w.Ticks-w.callT0 > w.B.Ticks {
-			panic(Budget{"ticks", w.Ticks - w.callT0})
+	t := atomic.AddInt64(&w.Ticks, 1)
+	if t&1023 == 0 {
+		if w.B.Ticks > 0 && t-w.callT0 > w.B.Ticks {
+			panic(Budget{"ticks", t - w.callT0})
 		}
 		if w.B.Depth > 0 {
+			depthMu.Lock()
 			if depthBuf == nil {
 				depthBuf = make([]uintptr, w.B.Depth+64)
 			}
@@ -792,6 +887,7 @@ func Tick() {
 			if d > w.MaxDepth {
 				w.MaxDepth = d
 			}
+			depthMu.Unlock()
 			if d > w.B.Depth {
 				panic(Budget{"depth", int64(d)})
 			}
@@ -799,9 +895,61 @@ func Tick() {
 	}
 }
 
+// enter/leave serialise the seams: the world is one data structure, and code under test may
+// call the seams from several goroutines. The lock is re-entrant (seams call each other).
+var (
+	seamMu    sync.Mutex
+	seamOwner atomic.Int64
+	seamDepth int
+)
+
+func goid() int64 {
+	var buf [64]byte
+	n := runtime.Stack(buf[:], false)
+	// "goroutine 123 ["
+	var id int64
+	for _, c := range buf[10:n] {
+		if c < '0' || c > '9' {
+			break
+		}
+		id = id*10 + int64(c-'0')
+	}
+	return id
+}
+
+func enter() {
+	if W == nil {
+		return
+	}
+	id := goid()
+	if seamOwner.Load() == id {
+		seamDepth++
+		return
+	}
+	seamMu.Lock()
+	seamOwner.Store(id)
+	seamDepth = 1
+}
+
+func leave() {
+	if W == nil && seamOwner.Load() == 0 {
+		return
+	}
+	if seamOwner.Load() != goid() {
+		return
+	}
+	seamDepth--
+	if seamDepth == 0 {
+		seamOwner.Store(0)
+		seamMu.Unlock()
+	}
+}
+
 // ---------------------------------------------------------------- time, rand
 
 func Now() time.Time {
+	enter()
+	defer leave()
 	if W == nil {
 		return time.Now()
 	}
@@ -814,6 +962,8 @@ func Since(t time.Time) time.Duration { return Now().Sub(t) }
 // Rand returns the next value of the world's pseudo random stream (differs
 // per world epoch, so leaking it into output is caught deterministically).
 func Rand() uint64 {
+	enter()
+	defer leave()
 	if W == nil {
 		return uint64(time.Now().UnixNano())
 	}
@@ -831,6 +981,8 @@ func RandFloat64() float64    { return float64(Rand()>>11) / (1 << 53) }
 func RandInt63n(n int64) int64 { return int64(Rand() % uint64(n)) }
 func RandInt31n(n int32) int32 { return int32(Rand() % uint64(n)) }
 func RandRead(b []byte) (int, error) {
+	enter()
+	defer leave()
 	for i := range b {
 		b[i] = byte(Rand())
 	}
@@ -846,6 +998,8 @@ var atExitDone bool
 
 // AtExit is deferred at the top of main.main and called by Exit.
 func AtExit() {
+	enter()
+	defer leave()
 	if atExitDone {
 		return
 	}
